@@ -14,6 +14,7 @@ from .c15 import pyval
 PID = "C16"
 
 NVALS = [-3, -1, 0, 1, 2, 3, 7, 10 ** 6, 1.0, 2.0, 7.0, 0.0, -1.0, -2.0, 0.5, 2.5, -0.5, 1e-12, float("nan"),
+         0.1 * 3 * 10, 2.000000001, 1.9999999995, 1.0000000000000002, 0.9999999999999999, 1000000.0005,
          float("inf"), float("-inf"), True, False, "2", None, [2], 2 + 0j]
 BASES = [-2, -1, -0.5, -1e-300, 0, 0.0, -0.0, 1, 1.0, 0.5, 2, 2.0, 10, math.e, 1e-300, 1e300, 0.9999999999999999,
          1.0000000000000002, True]
